@@ -85,7 +85,7 @@ def _case(draw, near=False):
         fam = "svd_full"
     else:
         fam = draw(st.sampled_from(["gauss", "gauss", "svd", "conflict", "conflict", "stationary", "lowrank", "grid",
-                                    "zero_rows"]))
+                                    "zero_rows", "orthoblock", "orthoblock"]))
         if fam == "grid":
             J = rng.integers(-4, 5, size=(m, n)) / 2.0
         else:
@@ -212,8 +212,9 @@ def run_case(case) -> Outcome:
         out.excluded = reason
         return out
     if name == "PCGrad" and refs.pcgrad_margin(J, case["schedule"]) < rel.MARGIN[dtype] * 10:
-        out.excluded = "pcgrad-branch-tie"
-        return out
+        # a branch test g.g_j < 0 at (numerical) zero: PCGrad is continuous there (the correction vanishes with the
+        # inner product), so the relation is still checked - only recorded as a class
+        out.cls("pcgrad-branch-tie")
     res = out.call(f"raises:{name}", _run, spec, dtype, Jt, case)
     if res is RAISED:
         return out
@@ -273,8 +274,9 @@ def run_case(case) -> Outcome:
         label = f"zero-columns:{name}"
     J2 = J2t.double().numpy()
     if name == "PCGrad" and refs.pcgrad_margin(J2, case["schedule"]) < rel.MARGIN[dtype] * 10:
-        out.excluded = "pcgrad-branch-tie"
-        return out
+        # a branch test g.g_j < 0 at (numerical) zero: PCGrad is continuous there (the correction vanishes with the
+        # inner product), so the relation is still checked - only recorded as a class
+        out.cls("pcgrad-branch-tie")
     reason = rel.domain_exclusion(spec, dtype, J2)
     if reason:
         out.excluded = reason + "(transformed)"
